@@ -157,6 +157,10 @@ func (e *Engine) Load() error {
 			if ls.decrFn != "" {
 				ls.decrSSA = sp.Func(ls.decrFn)
 			}
+			ls.oldSSA = map[string]*ssa.Function{}
+			for _, n := range ls.oldFns {
+				ls.oldSSA[n] = sp.Func(n)
+			}
 		}
 	}
 	return nil
@@ -268,6 +272,10 @@ func (e *Engine) verifyCase(c *Contract, combo []caseChoice, selRet int) (res *R
 		if r := recover(); r != nil {
 			if u, ok := r.(unsupported); ok {
 				res.Unsupported = u.msg
+				if x.curPos.IsValid() {
+					p := x.prog.Fset.Position(x.curPos)
+					res.Unsupported += fmt.Sprintf(" (near %s:%d)", shortPath(p.Filename), p.Line)
+				}
 				return
 			}
 			panic(r)
